@@ -67,3 +67,6 @@ func VerifGlobals() map[string]any {
 		"numProto":         keys(numPrototype),
 	}
 }
+
+// VerifHasRoot reports whether a root value exists (GetRootJson requires one).
+func (e *Evaluator) VerifHasRoot() bool { return e.root != nil }
